@@ -252,3 +252,67 @@ Proof. intro p. unfold go_otherPointerType, otherPointerType. bits. reflexivity.
 
 Theorem go_capabilityIndex_agrees : forall p, go_capabilityIndex p = capabilityIndex p.
 Proof. intro p. unfold go_capabilityIndex, capabilityIndex. bits. reflexivity. Qed.
+
+Theorem go_landingPadNearPointer_agrees : forall far tag, in_u64 far ->
+  go_landingPadNearPointer far tag = landingPadNearPointer far tag.
+Proof.
+  intros far tag Hf. unranges. unfold go_landingPadNearPointer, landingPadNearPointer. bits.
+  assert (H : wrap_u32 (far / 4 * 4) = u32 far / 4 * 4) by (unwrap; lia).
+  rewrite H. reflexivity.
+Qed.
+
+(* ------------------------------------------------------------------ segment.go *)
+
+Theorem go_inBounds_agrees : forall len addr, go_inBounds len addr = inBounds len addr.
+Proof. reflexivity. Qed.
+
+Theorem go_regionInBounds_agrees : forall len base sz, in_u32 base -> in_u32 sz ->
+  go_regionInBounds len base sz = regionInBounds len base sz.
+Proof.
+  intros len base sz Hb Hs. unfold go_regionInBounds, regionInBounds.
+  rewrite go_addSize_agrees by assumption.
+  destruct (addSize base sz); reflexivity.
+Qed.
+
+(* ------------------------------------------------------------------ struct.go *)
+
+Theorem go_pointerAddress_agrees : forall off size i, in_u32 off -> in_os size -> in_u16 i ->
+  go_pointerAddress off size i = pointerAddress off size i.
+Proof.
+  intros off [ds pc] i Ho [Hd Hp] Hi. cbn [DataSize PointerCount] in *.
+  unfold go_pointerAddress, pointerAddress. cbn [DataSize PointerCount].
+  rewrite go_addSize_agrees by assumption.
+  unfold addSize, ok_pair, maxSegmentSize. unranges. cbv zeta.
+  destruct (off + ds >? 4294967288) eqn:E1.
+  - rewrite go_element_agrees by (unranges; lia).
+    unfold element, ok_pair, maxSegmentSize. cbv zeta. split_ifs; lia.
+  - rewrite go_element_agrees by (unranges; lia).
+    unfold element, ok_pair, maxSegmentSize. cbv zeta. split_ifs; lia.
+Qed.
+
+Theorem go_bitInData_agrees : forall seg_ok size bit, go_bitInData seg_ok size bit = bitInData seg_ok size bit.
+Proof. reflexivity. Qed.
+
+(* Arith.dataAddress: Some (Some a) = (a, true), Some None = (0, false), None = panic *)
+Theorem go_dataAddress_agrees : forall seg_nil p_off size off sz,
+  go_dataAddress seg_nil p_off size off sz =
+  match dataAddress seg_nil p_off size off sz with
+  | Some r => Some (ok_pair 0 r)
+  | None => None
+  end.
+Proof.
+  intros. unfold go_dataAddress, dataAddress.
+  change (wrap_u32 (off + sz)) with (u32 (off + sz)).
+  destruct (seg_nil || (u32 (off + sz) >? DataSize size)); [reflexivity|].
+  rewrite go_addOffset_agrees. destruct (addOffset p_off off); reflexivity.
+Qed.
+
+(* ------------------------------------------------------------------ message.go *)
+
+Theorem go_canRead_step_agrees : forall curr sz, in_u64 curr -> in_u32 sz ->
+  go_canRead_step curr sz = canRead_step curr sz.
+Proof.
+  intros curr sz Hc Hs. unranges. unfold go_canRead_step, canRead_step. cbv zeta.
+  destruct (curr >=? sz) eqn:E; [|reflexivity].
+  f_equal. unwrap. lia.
+Qed.
